@@ -216,7 +216,7 @@ fn duration_cases(rng: &mut Rng, tu: &TimeUnits, n_random: usize) -> Vec<MCase> 
     // nothing at all is no duration either
     for key in keys {
         push(key, "(empty string, yaml)".to_string(), Some("\"\"".to_string()), Exp::Refuse, "outside_duration_yaml");
-        // BLANK-DURATION-CASE (enabled together with the fix of F19)
+        push(key, "(blank string, yaml)".to_string(), Some("'  '".to_string()), Exp::Refuse, "outside_duration_yaml");
     }
     // typed YAML values that are not durations
     for (y, t) in [("-5", "-5"), ("1.5e400", "1.5e400 (yaml)"), ("[1, 2]", "[1, 2] (yaml)"), ("true", "true (yaml)"), ("~", "null (yaml)"), ("4294967296", "4294967296"), ("-0.5", "-0.5 (yaml)")] {
